@@ -148,11 +148,26 @@ def run(ctx):
         base = vlib.read_ndjson(vlib.gen_cases(ctx, "MCPluginGen", "MCPluginGen_%s.cfg" % tier, timeout=900))
         if not ctx.quick():
             base += vlib.read_ndjson(vlib.gen_cases(ctx, "MCPluginGen", "MCPluginGen_three.cfg", timeout=900))
+        # plugins that keep writing to their stdout and never read their stdin again (Plugin.tla: Lingers): the host is rid of
+        # them because it detaches stdout before it waits
+        vlib.model_check(ctx, "Plugin", "MCPlugin_flood.cfg", timeout=900, workers=8)
+        neg2 = vlib.tlc(ctx, "Plugin", "MCPlugin_negctl2.cfg", timeout=900, allow_error=True)
+        if "Invariant NeverStuck is violated" not in neg2["out"]:
+            raise vlib.Inconclusive("negative control failed: a host that waits without detaching stdout is never stuck in Plugin.tla")
+        ctx.notes.append("negative control: Plugin.tla with DetachesStdout = FALSE violates NeverStuck (as expected)")
+        flood = [c for c in vlib.read_ndjson(vlib.gen_cases(ctx, "MCPluginGen", "MCPluginGen_flood.cfg", timeout=900))
+                 if any(p["hs"] == "garbageflood" or p["bye"] == "flood" for p in c["plugins"])]
         ctx.cov["script_assignments"] = len(base)
+        ctx.cov["lingering_plugin_assignments"] = len(flood)
         pick = rng.sample(base, min(len(base), 220)) if ctx.quick() else base
         cases = [expand(c, "inproc", rng) for c in pick]
         cli = rng.sample(base, min(len(base), 60 if ctx.quick() else 1500))
         cases += [expand(c, "cli", rng) for c in cli]
+        for c in (rng.sample(flood, min(len(flood), 24)) if ctx.quick() else flood):
+            c = dict(c, id=c["id"] + "-linger")
+            cases.append(expand(c, "inproc", rng))
+            if rng.random() < (0.25 if ctx.quick() else 1):
+                cases.append(expand(c, "cli", rng))
         # the same plugin asked for more than once (-p "p1" -p "p1 --inst=2"): told apart by position only
         for c in rng.sample(base, min(len(base), 60 if ctx.quick() else 600)):
             if len(c["plugins"]) < 2:
